@@ -796,7 +796,9 @@ func (g *genCtx) edit() {
 	default: // wrong digest length (rare)
 		if rng.Intn(6) == 0 {
 			at := pick()
-			g.evs[at].Digest.Digest = g.evs[at].Digest.Digest[:rng.Intn(len(g.evs[at].Digest.Digest))]
+			if n := len(g.evs[at].Digest.Digest); n > 0 { // (an already emptied digest stays)
+				g.evs[at].Digest.Digest = g.evs[at].Digest.Digest[:rng.Intn(n)]
+			}
 			g.ops = append(g.ops, fmt.Sprintf("truncate digest of %d", at))
 		} else {
 			g.redigestPCR0()
@@ -1745,6 +1747,7 @@ func main() {
 	refBoots := append(append([]*boot{}, good...), multiRef)
 
 	// ---- probes of the known findings (fixed witnesses)
+	unhashDone := probeUnhash() // a child process, collected at the end
 	probeD20(c, boots[0])
 	probeNilMeas(c, boots[0])
 	probeRange(c, boots[0])
@@ -1993,6 +1996,7 @@ func main() {
 		}
 	}
 
+	unhashDone(c)
 	c.Rep.Extra["boots"] = func() []string {
 		var r []string
 		for _, b := range boots {
@@ -2000,9 +2004,10 @@ func main() {
 		}
 		return r
 	}()
-	c.Finish("simulated boots on testdata/firmware/fake_intel_firmware.fd (Intel test flow with startup locality + PCR0_DATA + 3 measurements; small register, no locality entry, POST_CODE measurements, PCR1 measurement, two measurements in one step; no TXT registers with a log-only entry; registers without PCR0_DATA; a flow alignLogAndMeasurements rejects); " +
-		"recorded logs = both banks of the simulated log changed by 0..4 edit operations on the PCR0 entries of the chosen bank (insert new / copied entry, delete, swap, move, retype, re-digest with random / zero / image-piece digests, event data with zero, one, two, three (length,offset) pairs in range, swapped, ending at / reaching past the image end, zero-length, invalid, Fv(guid) descriptions, entry leaves the bank, truncated digest, PCR0_DATA re-digested with ACM_POLICY_STATUS decremented inside / at / above the window or with 1-2 flipped bits); " +
-		"sweeps: every decrement 0..max(limit,GOMAXPROCS)+2 for limits 0..16 and GOMAXPROCS 1..16, bit flips with the combinatorial strategy on/off; settings drawn per case (linear limit incl. negative, combinatorial 0..2, DisabledEventsMaxDistance 0..4, MaxDigestRangeGuesses 1..300); SHA1 and SHA256 (+ SHA384, unknown and null algorithm, nil and empty log); " +
+	c.Finish("simulated boots on testdata/firmware/fake_intel_firmware.fd (Intel test flow with startup locality + PCR0_DATA + 3 measurements; small register, no locality entry, POST_CODE measurements, PCR1 measurement, two measurements in one step; no TXT registers with a log-only entry; registers without PCR0_DATA; a flow alignLogAndMeasurements rejects; measurements of two and three references, image ranges and hard-coded values mixed, behind EV_POST_CODE / firmware-blob entries); " +
+		"recorded logs = both banks of the simulated log changed by 0..4 edit operations on the PCR0 entries of the chosen bank (insert new / copied entry, delete, swap, move, retype, re-digest with random / zero / image-piece digests, event data with zero, one, two, three (length,offset) pairs in range, swapped, ending at / reaching past the image end, invalid, Fv(guid) descriptions, lists of 0..6 pairs (empty, real, stored offset first, at / past the image end) in any order, entry leaves the bank, truncated digest, PCR0_DATA re-digested with ACM_POLICY_STATUS decremented inside / at / above the window or with 1-2 flipped bits); " +
+		"pair lists: every list of empty / real pairs up to three pairs (thorough: four) as the event data of every simulated entry, the entry only re-digested (retyped to a parsed type with DisabledEventsMaxDistance 0 where needed) so that it stays paired with its measurement of one, two or three references, plus random longer lists after descriptions; " +
+		"sweeps: every decrement 0..max(limit,GOMAXPROCS)+2 for limits 0..16 and GOMAXPROCS 1..16, bit flips with the combinatorial strategy on/off; settings drawn per case (linear limit incl. negative, combinatorial 0..2, DisabledEventsMaxDistance 0..4, MaxDigestRangeGuesses 1..300, 1..2 when the digests left unexplained are found in two or more places of the image: finding C13-unhash-concurrent-found-digests, whose witness runs in a child process); SHA1 and SHA256 (+ SHA384, unknown and null algorithm, nil and empty log); " +
 		"hook cases: eventAndMeasurementsDistance on balanced/unbalanced bitmaps and short digests, bruteForceAlignedEventLogs on the generated logs; non-trivial = at least one edit operation; distinct = distinct Gallina literal")
 }
 
@@ -2126,33 +2131,35 @@ func unhashWitness(b *boot) {
 	fmt.Println("witness: no crash in", k, "calls")
 }
 
-func probeUnhash(c *gal.Ctx) {
+func probeUnhash() func(c *gal.Ctx) {
 	exe, err := os.Executable()
 	if err != nil {
-		return
+		return func(*gal.Ctx) {}
 	}
 	cmd := exec.Command(exe)
 	cmd.Env = append(os.Environ(), unhashProbeEnv+"=1")
 	done := make(chan struct{})
 	var out []byte
 	go func() { out, _ = cmd.CombinedOutput(); close(done) }()
-	select {
-	case <-done:
-	case <-time.After(40 * time.Second):
-		if cmd.Process != nil {
-			cmd.Process.Kill()
+	return func(c *gal.Ctx) {
+		select {
+		case <-done:
+		case <-time.After(unhashWitnessTime + 20*time.Second):
+			if cmd.Process != nil {
+				cmd.Process.Kill()
+			}
+			<-done
 		}
-		<-done
-	}
-	s := string(out)
-	crashed := strings.Contains(s, "unhash.FindDigestSourceAllDigests") && strings.Contains(s, "panic: runtime error: index out of range")
-	msg := ""
-	if i := strings.Index(s, "panic: "); i >= 0 {
-		msg = s[i:]
-		if j := strings.Index(msg, "\n"); j >= 0 {
-			msg = msg[:j]
+		s := string(out)
+		crashed := strings.Contains(s, "unhash.FindDigestSourceAllDigests") && strings.Contains(s, "panic: runtime error: index out of range")
+		msg := "no crash this time"
+		if i := strings.Index(s, "panic: "); crashed && i >= 0 {
+			msg = s[i:]
+			if j := strings.IndexByte(msg, '\n'); j >= 0 {
+				msg = msg[:j]
+			}
+			msg = "the process died in a goroutine of the digest search: " + msg
 		}
+		c.Probe(findUnhash, crashed, fmt.Sprintf("child process: ReproduceEventLog (SHA1, default settings, 2000000 guesses) on the simulated log with a second copy of the EV_SEPARATOR entry, repeated for up to %s: %s", unhashWitnessTime, msg))
 	}
-	c.Probe(findUnhash, crashed, "child process: ReproduceEventLog (SHA1, default settings, 2000000 guesses) on the simulated log with a second copy of the EV_SEPARATOR entry, up to 20 times: "+
-		map[bool]string{true: "the process died in a goroutine of the digest search: " + msg, false: "no crash this time"}[crashed])
 }
